@@ -263,6 +263,7 @@ func runSignScenario(w *World, tier string, prop string) (bool, interface{}) {
 	c := NewCluster(w, n)
 	c.L.Faults.ShortReads = w.Tape.Bool(1, 2, "shortReads")
 	c.L.Faults.PermuteResults = true
+	c.L.Faults.BoardDownAtSubmit = w.Tape.Bool(1, 2, "boardOutages") // single submissions refused by the board; operators submit again
 	members := AllMembers(n)
 	so := &signOracle{c: c, prop: prop}
 	so.install()
